@@ -544,7 +544,18 @@ class Nodes:
                     # Strip off the tag
                     new_node = node.value
             elif value_tag:
-                new_node = TaggedScalar(value=node, tag=value_tag)
+                # ruamel.yaml can serialize only the text of a tagged scalar
+                # (exactly what it produces when loading one), so a
+                # non-string value is stored as its YAML text lest the
+                # document become impossible to dump.
+                tag_value = node
+                if node is None:
+                    tag_value = "null"
+                elif isinstance(node, (bool, ScalarBoolean)):
+                    tag_value = "true" if node else "false"
+                elif not isinstance(node, str):
+                    tag_value = str(node)
+                new_node = TaggedScalar(value=tag_value, tag=value_tag)
                 if hasattr(node, "anchor") and node.anchor.value:
                     new_node.yaml_set_anchor(node.anchor.value)
         else:
